@@ -2,6 +2,7 @@ SPECIFICATION Spec
 CONSTANTS Pool <- PoolF  Probes <- ProbesF  MaxIns = 3  MaxBatch = 2  Modes <- AllModes  SortVariant = "offset"  EmptyGuard = TRUE
 INVARIANT NoOOB
 INVARIANT QueriesExact
+INVARIANT TreeQueryExact
 INVARIANT WellFormed
 INVARIANT RefinesJudge
 INVARIANT RootBoxIsUnion
